@@ -1,11 +1,11 @@
-\* M, quick: reduced instance XLEN = 16 (adds LH LHU SH: two-byte accesses)
+\* M, quick: reduced instance XLEN = 16, four registers, 16 bytes of memory; one instruction from every initial state
 CONSTANTS
   XLEN = 16
   NREG = 4
   MEMN = 16
   Dev = {}
-  Triples <- TriplesFew
-  MCVals <- ValsFew
+  Triples <- TriplesQuick
+  MCVals <- ValsQuick3
   ImmSel = "few"
   GPats = {}
   GVals = {}
